@@ -216,6 +216,17 @@ CLAIMS = {
         "note": "NOT decided: that hard-pulse simulation inverts the SLR design, composition of back-to-back waveforms, dzrf ripple relations. Regularisers eps are read as 0 and the isinf masks of abrm_ptx "
                 "(phi = 0 samples) are outside the generic case. Level 'other' overall; the unitarity obligations themselves are proved by normalisation.",
     },
+    "C20": {
+        "engine": "endpoint-zero abstract domain (per path), E3 linearity of sum",
+        "category": "proof",
+        "technique": "static analysis: path enumeration with an endpoint-zero abstract domain {Z,?}^2 over linspace/concatenate/scaling; exact-area identity sum(trap)*dt = area closed in the term normal form by linearity of sum over scalar factors",
+        "text": "PARTIAL, proof level for the two clauses it decides: on every positive-area path the waveform returned by trap_grad and min_trap_grad provably starts and ends at zero, and it integrates "
+                "to exactly the requested area (total area for trap_grad, area under the flat top - the middle piece - for min_trap_grad) for all area, gmax, dgdt, dt, by an algebraic identity; "
+                "spokes_grad is assembled from these designers with the documented areas and limits.",
+        "design_ref": "DESIGN.md section 4 C20",
+        "note": "NOT decided: the amplitude bound |g| <= gmax and the slew-rate bound (inequalities over ceil-rounded runtime quantities: no sound static bound in reach), and the k-space increments of "
+                "spokes_grad. Trusted: numpy linspace/concatenate semantics; divisions are by non-zero finite scalars. The rampsamp=0 arm of trap_grad is unreachable from its public signature and is skipped.",
+    },
 }
 
 NOT_APPLICABLE = {p: PENDING for p in ["C%02d" % i for i in range(1, 21)]}
